@@ -242,6 +242,9 @@ def run(case):
         overwrite = case["preexisting"] != "no_overwrite"
         fn = cryomap.em2mrc if op == "em2mrc" else cryomap.mrc2em
         kw = {"invert": case["invert"], "overwrite": overwrite}
+        if overwrite and case["seed"] % 2:
+            del kw["overwrite"]  # "refuses when told not to": nothing told = an existing target is replaced
+            out.label("overwrite_left_at_its_default")
         if case["explicit_name"]:
             kw["output_name"] = dst
         out.label("invert" if case["invert"] else "no_invert", f"pre:{case['preexisting']}")
